@@ -1,7 +1,10 @@
 //! Shared library of the sequential engine (E-SEQ). See /verif/seq/API.md.
 pub mod enumerate;
+pub mod fixtures;
 pub mod qd;
+pub mod reftsig;
 pub mod runner;
+pub mod templates;
 pub mod wire;
 
 pub use runner::{catch, hex, json, panic_key, unhex, Ctx, Local, Tier, Value};
